@@ -73,6 +73,37 @@ type cfg struct {
 	nReads   int
 	bounds   []int
 	teardown string // id whose teardown-bound context the controller obtains in its first reconcile
+	// coalesce: the state under the runtime may merge an aggregated batch with the one that follows it (a
+	// slow transport): events keep their order, but Bootstrapped is then not the last event of its batch
+	coalesce bool
+}
+
+// coalescer forwards aggregated kind watches through a goroutine that may glue a batch to the next one.
+type coalescer struct{ state.CoreState }
+
+func (c coalescer) WatchKindAggregated(ctx context.Context, k resource.Kind, ch chan<- []state.Event, opts ...state.WatchKindOption) error {
+	in := make(chan []state.Event)
+	if err := c.CoreState.WatchKindAggregated(ctx, k, in, opts...); err != nil {
+		return err
+	}
+	vrt.GoNamed("coalescer", func() {
+		for {
+			r1 := vrt.RecvCase((<-chan []state.Event)(in))
+			if vrt.Select(false, vrt.RecvCase(ctx.Done()), r1) == 0 {
+				return
+			}
+			batch := r1.Value
+			vrt.Yield() // the transport is slow: what the source produces meanwhile travels in the same batch
+			r2 := vrt.RecvCase((<-chan []state.Event)(in))
+			if vrt.Select(true, r2) == 0 {
+				batch = append(append([]state.Event(nil), batch...), r2.Value...)
+			}
+			if vrt.Select(false, vrt.RecvCase(ctx.Done()), vrt.SendCase(ch).With(batch)) == 0 {
+				return
+			}
+		}
+	})
+	return nil
 }
 
 // prefixStates returns the rendering of the Int kind after k commits, k = 0..n.
@@ -113,7 +144,11 @@ func renderList(m map[string]string) string {
 func body(c cfg, x *explore.X) {
 	ctx, cancel := vctx.WithCancel(context.Background())
 	log := &hx.Log{}
-	st := state.WrapCore(hx.NewNamespaced(log))
+	var core state.CoreState = hx.NewNamespaced(log)
+	if c.coalesce {
+		core = coalescer{core}
+	}
+	st := state.WrapCore(core)
 	for _, op := range c.pre {
 		doW(ctx, st, op)
 	}
@@ -565,6 +600,8 @@ func build(tier string) []explore.Scenario {
 	}
 	cs := []cfg{
 		{name: "bootstrap-race/2preexisting/1reader", pre: []wop{"create a", "create b"}, script: []wop{"update a"}, prologue: false, readers: 1, nReads: 1, bounds: b0},
+		{name: "bootstrap-coalesced/3preexisting", pre: []wop{"create a", "create b", "create c"}, script: []wop{"update b", "destroy c", "create d"}, prologue: false, readers: 0, bounds: []int{0}, coalesce: true},
+		{name: "steady-coalesced/update-create/1reader", pre: []wop{"create a", "create b"}, script: []wop{"update a", "create c"}, prologue: true, readers: 1, nReads: 1, bounds: []int{0}, coalesce: true},
 		{name: "steady/update-create/1reader", pre: []wop{"create a", "create b"}, script: []wop{"update a", "create c"}, prologue: true, readers: 1, nReads: 2, bounds: b0},
 		{name: "steady/update-destroy-unlabel/1reader", pre: []wop{"create a", "create b"}, script: []wop{"unlabel a", "destroy b"}, prologue: true, readers: 1, nReads: 2, bounds: b0},
 		{name: "steady/2readers", pre: []wop{"create a"}, script: []wop{"update a", "update a"}, prologue: true, readers: 2, nReads: 1, bounds: b2r},
